@@ -7,14 +7,19 @@ Three case kinds, each a pure JSON description:
   iradon : N, angle list, theta dtype, filter, circle flag, B sinogram specs, a partner
   filter : padded size, filter name
 
-Tolerances (see metas/c07.py): the torch pipeline is float32, the references float64 evaluated on
-the identical float32 inputs.  Error models
-  radon  : N samples per bin, each bilinear sample displaced by the float32 rounding of a
-           coordinate of size <= N  ->  err <= K * eps32 * N^2 * max|image|
+Tolerances: the torch pipeline is float32, the references are float64 evaluated on the identical
+float32 inputs.  Error models (scale) and allowed multiples K:
+  radon  : N bilinear samples per bin, each displaced by the float32 rounding of a coordinate of
+           size <= N             -> scale = eps32 * N^2 * max|image|,          K = 8
   iradon : float32 FFT of <= 256 points + interpolation at a float32 detector coordinate of size
-           <= 1.5 N, averaged over the angles -> err <= K * eps32 * (N + 8) * max|sinogram|
-  filter : float32 FFT of the size-point kernel, values <= 1 -> err <= K * eps32
-K is >= 10x the largest ratio measured on the corrected tree (recorded in evidence `extra`)."""
+           <= 1.5 N (rounding of deg2rad, cos/sin, t + centre), averaged over the angles
+                                 -> scale = eps32 * (N + 8) * max|sinogram|,   K = 32
+  filter : float32 FFT of the size-point kernel, values <= 1 -> scale = eps32, K = 32
+  batched vs per-image: K = 2 (measured: bitwise equal); linearity: 2 K with |a|max|x| + |b|max|y|.
+Largest error/scale measured on the corrected tree over 8 x 30 000 targeted cases: radon 0.65,
+theta=0 0.40, radon linearity 0.39, iradon 1.95, iradon linearity 0.32, filter 2.23 (exhaustive) -
+every K leaves >= 12x head-room, while the sensitivity mutants produce ratios of 50 .. 5e6.
+The largest ratio of each run is written to the evidence file (`extra`)."""
 
 from __future__ import annotations
 
@@ -30,7 +35,7 @@ EPS32 = ref.EPS32
 K_RADON = 8.0
 K_IRADON = 32.0
 K_FILTER = 32.0
-K_BATCH = 0.5  # batched vs per-image call: same arithmetic, only the batch extent differs
+K_BATCH = 2.0  # batched vs per-image call: same arithmetic, only the batch extent differs (measured: bitwise equal)
 FLOOR = 1e-30
 
 
@@ -255,13 +260,15 @@ def _check_radon(ctx, case):
     scale = EPS32 * N * N * (abs(a) * float(np.abs(imgs[0]).max()) + abs(b) * float(np.abs(y).max()))
     _judge(ctx, case, Rz, a * singles[0] + b * Ry, scale, 2 * K_RADON, "radon_torch linearity R(a x + b y) vs a R(x) + b R(y), a=%r b=%r" % (a, b), "radon_linearity")
 
-    # projection at 0 degrees == column sums of the disc-masked image
+    # projection at 0 degrees == column sums of the disc-masked image.  This clause is judged on
+    # the image BEFORE masking: applying the disc mask is radon_torch's own job
+    raws = [ref.build_image(s, N, masked=False) for s in case["imgs"]]
     with ctx.sut(case, "radon_torch(theta=[0])"):
-        p0 = _np(rr.radon_torch(torch.from_numpy(stack.copy()), theta=torch.zeros(1, dtype=th.dtype)))
+        p0 = _np(rr.radon_torch(torch.from_numpy(np.stack(raws)), theta=torch.zeros(1, dtype=th.dtype)))
     p0 = _shape(case, p0, (B, 1, N), "radon_torch(theta=[0])", squeeze_ok=(B == 1))
-    for i, img in enumerate(imgs):
-        scale = EPS32 * N * N * float(np.abs(img).max())
-        _judge(ctx, case, p0[i, 0], ref.column_sums(img), scale, K_RADON, "radon_torch at 0 degrees vs column sums of the masked image (image %d)" % i, "radon_theta0")
+    for i, raw in enumerate(raws):
+        scale = EPS32 * N * N * float(np.abs(raw).max())
+        _judge(ctx, case, p0[i, 0], ref.column_sums(raw), scale, K_RADON, "radon_torch at 0 degrees vs column sums of the disc-masked image (image %d, given unmasked)" % i, "radon_theta0")
     target(min(worst / K_RADON, 2.0), label="radon err/tol")
 
 
